@@ -171,9 +171,25 @@ def value_views(root):
 
 
 # ---- C06 -------------------------------------------------------------------------------------------
-def classify_c06(d: str, out: str) -> str:
+def glued_unclaimed_comment(f) -> bool:
+    """An unowned block comment that does not start its line (the visible token in front of it is not a line
+    break): it re-lexes as the inline comment of what precedes it."""
+    at_line_start = True
+    for t in f.token_store:
+        if not t.raw_text:
+            continue
+        if type(t).__name__ == 'BlockComment' and not t.claimed and not at_line_start:
+            return True
+        if type(t).__name__ not in ('Indent', 'Whitespace'):
+            at_line_start = t.raw_text.endswith('\n')
+    return False
+
+
+def classify_c06(d: str, out: str, f=None) -> str:
     if '._values' in d:
         return 'C06:custom-values-adjacent-numbers'
+    if f is not None and "_inline_comment: None vs ('InlineComment'" in d and glued_unclaimed_comment(f):
+        return 'C06:first-item-before-unclaimed-comment'
     if d.rstrip().endswith("\\r')") or ('_ignored' in d and '\\r' in d):
         return 'C06:ignored-line-crlf'
     return 'C06:reparse-content-differs'
@@ -202,7 +218,7 @@ def run_c06(ctx: common.Ctx):
                 break
             d = diff(treewalk.content(f), treewalk.content(g))
             if d:
-                ctx.monitor_failure(classify_c06(d, out), f'after {hist[-1]} the re-parsed document differs from the model at {d}', w)
+                ctx.monitor_failure(classify_c06(d, out, f), f'after {hist[-1]} the re-parsed document differs from the model at {d}', w)
                 break
             # block comments: attribution may differ after re-parse (C06 excludes it), their texts and order may not
             cf = [t.raw_text for t in f.token_store if type(t).__name__ == 'BlockComment']
